@@ -13,6 +13,7 @@
 // limitations under the License.
 
 #include "bloch/runtime/qasm_simulator.hpp"
+#include "bloch/support/verif_hooks.hpp"
 
 #include <array>
 #include <cmath>
@@ -43,6 +44,7 @@ namespace bloch::runtime {
             newState[i + m_state.size()] = 0;
         }
         m_state.swap(newState);
+        BLOCH_VERIF_OP("alloc", index, -1, 0.0, -1);
         return index;
     }
 
@@ -70,6 +72,7 @@ namespace bloch::runtime {
         const std::array<std::complex<double>, 4> m{1 / std::sqrt(2.0), 1 / std::sqrt(2.0),
                                                     1 / std::sqrt(2.0), -1 / std::sqrt(2.0)};
         applySingleQubitGate(q, m);
+        BLOCH_VERIF_OP("h", q, -1, 0.0, -1);
         if (m_logOps)
             m_ops.emplace_back("h q[" + std::to_string(q) + "];\n");
     }
@@ -77,6 +80,7 @@ namespace bloch::runtime {
     void QasmSimulator::x(int q) {
         const std::array<std::complex<double>, 4> m{0, 1, 1, 0};
         applySingleQubitGate(q, m);
+        BLOCH_VERIF_OP("x", q, -1, 0.0, -1);
         if (m_logOps)
             m_ops.emplace_back("x q[" + std::to_string(q) + "];\n");
     }
@@ -85,6 +89,7 @@ namespace bloch::runtime {
         const std::array<std::complex<double>, 4> m{0.0, std::complex<double>(0, -1),
                                                     std::complex<double>(0, 1), 0.0};
         applySingleQubitGate(q, m);
+        BLOCH_VERIF_OP("y", q, -1, 0.0, -1);
         if (m_logOps)
             m_ops.emplace_back("y q[" + std::to_string(q) + "];\n");
     }
@@ -92,6 +97,7 @@ namespace bloch::runtime {
     void QasmSimulator::z(int q) {
         const std::array<std::complex<double>, 4> m{1.0, 0.0, 0.0, -1.0};
         applySingleQubitGate(q, m);
+        BLOCH_VERIF_OP("z", q, -1, 0.0, -1);
         if (m_logOps)
             m_ops.emplace_back("z q[" + std::to_string(q) + "];\n");
     }
@@ -102,6 +108,7 @@ namespace bloch::runtime {
         const std::array<std::complex<double>, 4> m{ct, std::complex<double>(0, -st),
                                                     std::complex<double>(0, -st), ct};
         applySingleQubitGate(q, m);
+        BLOCH_VERIF_OP("rx", q, -1, t, -1);
         if (m_logOps)
             m_ops.emplace_back("rx(" + std::to_string(t) + ") q[" + std::to_string(q) + "];\n");
     }
@@ -111,6 +118,7 @@ namespace bloch::runtime {
         double st = std::sin(t / 2);
         const std::array<std::complex<double>, 4> m{ct, -st, st, ct};
         applySingleQubitGate(q, m);
+        BLOCH_VERIF_OP("ry", q, -1, t, -1);
         if (m_logOps)
             m_ops.emplace_back("ry(" + std::to_string(t) + ") q[" + std::to_string(q) + "];\n");
     }
@@ -120,6 +128,7 @@ namespace bloch::runtime {
         std::complex<double> eneg = std::exp(std::complex<double>(0, t / 2));
         const std::array<std::complex<double>, 4> m{epos, 0.0, 0.0, eneg};
         applySingleQubitGate(q, m);
+        BLOCH_VERIF_OP("rz", q, -1, t, -1);
         if (m_logOps)
             m_ops.emplace_back("rz(" + std::to_string(t) + ") q[" + std::to_string(q) + "];\n");
     }
@@ -149,6 +158,7 @@ namespace bloch::runtime {
                 }
             }
         }
+        BLOCH_VERIF_OP("cx", control, target, 0.0, -1);
         if (m_logOps)
             m_ops.emplace_back("cx q[" + std::to_string(control) + "],q[" + std::to_string(target) +
                                "];\n");
@@ -193,6 +203,7 @@ namespace bloch::runtime {
             }
         }
 
+        BLOCH_VERIF_OP("reset", q, -1, 0.0, -1);
         if (m_logOps)
             m_ops.emplace_back("reset q[" + std::to_string(q) + "];\n");
     }
@@ -207,6 +218,10 @@ namespace bloch::runtime {
                 p1 += std::norm(m_state[i]);
         std::uniform_real_distribution<double> dist(0.0, 1.0);
         double r = dist(rng);
+#ifdef BLOCH_VERIF_HOOKS
+        if (verif::draw)
+            r = verif::draw(this, "measure", q, p1, r);
+#endif
         int res = r < p1 ? 1 : 0;
         double norm = std::sqrt(res ? p1 : 1 - p1);
         for (size_t i = 0; i < m_state.size(); ++i) {
@@ -215,6 +230,7 @@ namespace bloch::runtime {
             else
                 m_state[i] /= norm;
         }
+        BLOCH_VERIF_OP("measure", q, -1, 0.0, res);
         if (m_logOps)
             m_ops.emplace_back("measure q[" + std::to_string(q) + "] -> c[" + std::to_string(q) +
                                "];\n");
